@@ -492,3 +492,67 @@ Proof.
 Qed.
 
 End Top.
+
+(* ====================================================================== the full statement (NOT proved) *)
+(* C09 for the heap model Tree/Load.v and for every master that is split only at splittable places: files of different
+   versions, split points that are named or have sequence content, sub-elements keyed by DEFINITION-REF.  The theorems
+   above prove it for the pure merge [pmerge] and the class [Good]; what is missing for C09_full is
+     (1) the refinement  heap merge_element = pmerge  on the trees read back with [abs] (it is validated on every load of
+         the correspondence streams by MergePure.check_load, not proved),
+     (2) the classes outside Good: split points whose content is a sequence (the insertion range then depends on the
+         schema order), named split points, DEFINITION-REF keys in bags, different versions per file.
+   [C09-unnamed-below-splittable] (known finding) shows that the statement is FALSE for elements without any key below a
+   splittable parent; [UniqueKeys] excludes them. *)
+Fixpoint load_views (T : tables) (LATEST defref : N) (m : N) (M : mtree) (version : N -> N) (gs : list N) (w : world)
+  : res (list (out N) * world) :=
+  match gs with
+  | [] => Val ([], w)
+  | g :: r =>
+    match project g M with
+    | None => Val ([], w)
+    | Some e =>
+      match load_parsed T LATEST defref m (to_dec g) e (pstate_of T (version g) e) w with
+      | Val (o, w') => match load_views T LATEST defref m M version r w' with
+                       | Val (os, w'') => Val (o :: os, w'') | Pan s => Pan s | Fuel => Fuel end
+      | Pan s => Pan s
+      | Fuel => Fuel
+      end
+    end
+  end.
+
+(* the key the specification distinguishes sub-elements by: kind + SHORT-NAME text, else kind + DEFINITION-REF text *)
+Definition m_text (c : mtree) : option (list N) :=
+  match m_content c with [inr (Parser.DString s)] => Some s | _ => None end.
+Definition m_shortname (T : tables) (c : mtree) : option (list N) :=
+  match m_content c with
+  | inl s :: _ => if m_name s =? name_short_name T then m_text s else None
+  | _ => None
+  end.
+Definition m_defref (defref : N) (c : mtree) : option (list N) :=
+  match find (fun k => m_name k =? defref) (kids (m_content c)) with Some d => m_text d | None => None end.
+Definition m_key (T : tables) (defref : N) (c : mtree) : N * option (list N) * option (list N) :=
+  (m_name c, m_shortname T c, m_defref defref c).
+
+(* every element has a key, and no two sub-elements of one element have the same *)
+Fixpoint UniqueKeys (T : tables) (defref : N) (t : mtree) {struct t} : Prop :=
+  match t with
+  | MNode _ _ _ content _ _ =>
+    NoDup (map (m_key T defref) (kids content)) /\
+    (forall c, In c (kids content) -> m_shortname T c <> None \/ m_defref defref c <> None \/
+                                       forall c', In c' (kids content) -> m_name c' = m_name c -> c' = c) /\
+    (fix all (l : list (mtree + Parser.cdata)) : Prop :=
+       match l with [] => True | inl c :: r => UniqueKeys T defref c /\ all r | inr _ :: r => all r end) content
+  end.
+
+Definition C09_full : Prop :=
+  forall (T : tables) (LATEST defref : N) (M : mtree) (n : nat) (version : N -> N) (w0 : world) (m : N) (x : model),
+    (* the master's files are 0 .. n-1 (= the order in which they are loaded; every load order of every split is the
+       id order of a relabelled master), it is split only at the splittable places of the oldest version, and its
+       sub-elements are distinguishable *)
+    Splittable T defref (fold_right N.min LATEST (map version (map N.of_nat (seq 0 n)))) M ->
+    UniqueKeys T defref M ->
+    nth_opt (w_models w0) (N.to_nat m) = Some x -> m_files x = [] ->
+    exists os w,
+      load_views T LATEST defref m M version (map N.of_nat (seq 0 n)) w0 = Val (os, w) /\
+      Forall (fun o => exists f, o = OK f) os /\
+      exists h, abs_model w m = Some h /\ hperm h (expected None M).
